@@ -57,12 +57,16 @@ fn alphabet<Q: QueueApi>(u: u32, r: i64, m: &Model, wide: bool) -> Vec<Op> {
     // iter_mut: every consumed prefix, one write at every position
     let n = ids.len();
     for consumed in 0..=n + 1 {
-        v.push(Op::IterMut { n: consumed, writes: vec![], touch: false, leak: false, via_ref: consumed % 2 == 0 });
+        v.push(Op::IterMut { n: consumed, writes: vec![], touch: false, leak: false, via_ref: consumed % 2 == 0, back: 0 });
+        if consumed <= n {
+            // the rest (and one call more) from the back, where the iterator offers it
+            v.push(Op::IterMut { n: consumed, writes: vec![], touch: false, leak: false, via_ref: false, back: n + 1 - consumed });
+        }
         for j in 0..consumed.min(n) {
             for ord in 0..r {
                 let mut w = vec![None; consumed];
                 w[j] = Some(ord);
-                v.push(Op::IterMut { n: consumed, writes: w, touch: j == 0, leak: false, via_ref: false });
+                v.push(Op::IterMut { n: consumed, writes: w, touch: j == 0, leak: false, via_ref: false, back: 0 });
             }
         }
     }
